@@ -1227,6 +1227,11 @@ impl ArchiveBuilder {
                 file_data.to_vec()
             };
 
+            // MPQ uses ADLER32 for sector checksums. As for the sectors of a multi-sector
+            // file it covers the data as stored, before encryption: compression can be
+            // lossy (ADPCM), so the original content cannot be compared after decoding
+            let crc = adler2::adler32_slice(&compressed_data);
+
             // Encrypt if needed
             let final_data = if *encrypt {
                 flags |= BlockEntry::FLAG_ENCRYPTED;
@@ -1247,8 +1252,6 @@ impl ArchiveBuilder {
 
             // Write CRC if enabled
             if self.generate_crcs {
-                // MPQ uses ADLER32 for sector checksums
-                let crc = adler2::adler32_slice(file_data);
                 writer.write_u32_le(crc)?;
                 log::debug!("Generated CRC for single unit file {archive_name}: 0x{crc:08X}");
             }
